@@ -10,7 +10,7 @@ extrapolations divide by a non-power-of-two and are compared to 1e-12).  Float m
 `Float` with the operation order of the Python source, GENERATED Float kernels (exp pairs), doubles
 as hex, 1e-12 relative.  Relational checks run on the REAL code alone: scalar-vs-tensor `select`,
 scalar-vs-tensor `insert`, insert→select round trip for every shipped matching pair, acceptance against the
-closed-form range [-tol, dt(N-1)+tol], integer / boolean storage against a float64 twin.
+closed-form range [-tol, dt(N-1)+tol], integer / boolean and reduced-precision float storage against a float64 twin.
 `reconfigured` stream: the real record REACHES the (dt, N) of its `begin` line by re-assignment of its public
 attributes dt / duration / inclusive after construction (`random_history`; carried in the case as `history`, the
 driver sees the resulting configuration only) and must behave like the freshly constructed record.
@@ -51,7 +51,8 @@ SPEC = {
         "property's own tolerance (1e-6) and times kept 1e-3 away from every decision boundary — partial (float)",
         "storage dtype float64, observation shape (P,), CPU; dtype conversion of inserted values and autograd are not modelled; integer "
         "and boolean storage is covered by a twin relation only (same calls on a float64 record holding the same numbers, sample-selecting "
-        "kernels for insert / boolean storage)",
+        "kernels for insert / boolean storage); float16 / bfloat16 / float32 storage likewise by a twin relation (integer-valued samples, "
+        "sample-selecting kernels exactly, arithmetic kernels to 4 eps of the storage type; times are float64 / float32 as given by the caller)",
         "a record that reaches its step time and size by re-assignment of dt / duration / inclusive after construction is judged by the "
         "specification of the resulting (dt, N): the driver is told the resulting configuration only",
         "one storage column per element (a scalar-time call acts identically on every column; a tensor-time call addresses one column per element)",
@@ -1088,6 +1089,140 @@ def dtype_twins(ctx, ex: Exploration, count: int):
     ex.extra["storage_dtype_twins"] = stats
 
 
+FLOAT_STORAGE = [torch.float16, torch.bfloat16, torch.float32]
+
+
+def fine_times(rng, dt, n, tol, count):
+    """times that miss the tolerance band of a grid point by a hair: k*dt +- (tol + 2^-j), j = 7..16 (all exact in
+    float64 for dyadic tol; far above float64 resolution for tol = 1e-6) — off the grid by MORE than the tolerance,
+    yet by less than the resolution of a reduced-precision float at the magnitude of the later grid points"""
+    out = []
+    hi = dt * (n - 1)
+    for _ in range(count):
+        k = rng.randrange(n)
+        s = rng.choice([-1, 1])
+        outside = rng.random() < 0.12            # a hair beyond a range limit: must be rejected
+        if k == 0:
+            s = -1 if outside else 1
+        elif k == n - 1:
+            s = 1 if outside else -1
+        t = dt * k + s * (tol + 2.0 ** -rng.randint(7, 16))
+        if outside or -tol <= t <= hi + tol:
+            out.append(t)
+    return out
+
+
+def float_storage_twins(ctx, ex: Exploration, count: int):
+    """Which samples are hit does not depend on the floating point type the observations are STORED in: the time of a
+    select / insert call is the caller's number (a Python float, a float64 or float32 time tensor) and is judged
+    against the grid as such.  A record with float16 / bfloat16 / float32 storage holding integers (exact in all of
+    them) and a float64 twin holding the same numbers are driven with the same calls: scalar times and PER-ELEMENT
+    time tensors (with and without the trailing time axis; float64, or float32 when every time is exact in float32),
+    times from the sweep plus times that miss the tolerance band of a grid point by 2^-7 .. 2^-16 on records of up to
+    33 samples (so that the miss is below the storage type's resolution at that time).  Sample-selecting kernels are
+    compared exactly; the arithmetic kernels to the storage type's resolution (4 eps (1 + max |stored|)), their
+    result may be computed in the storage type.  Inserts: the sample-selecting extrapolations, storage compared exactly."""
+    rng = ctx.rng
+    stats = {"select": 0, "insert": 0, "by_dtype": {}, "fine_off_grid_times": 0, "float32_time_tensors": 0}
+    found = 0
+    for c in range(count):
+        dtype = FLOAT_STORAGE[c % 3]
+        dt = rng.choice([0.25, 0.5, 1.0, 2.0])
+        n = rng.choice([2, 3, 5, 8, 12, 17, 24, 33])
+        ptr = rng.randrange(n)
+        P = rng.choice([1, 2, 3])
+        tol = rng.choice([0.0, 0.125, 0.0625, 1e-6, 1e-6])
+        rows = [[float(rng.randint(-40, 40)) for _ in range(P)] for _ in range(n)]
+        top = 1.0 + max(abs(v) for r in rows for v in r)
+        coarse = [float(t) for t in sweep_times(dt, min(n, 6), tol if tol != 1e-6 else 0.0)]
+        coarse = [t for t in coarse if -tol <= t <= dt * (n - 1) + tol] + [dt * (n - 1), dt * (n - 1) + tol]
+        fine = fine_times(rng, dt, n, tol, 24)
+        stats["fine_off_grid_times"] += len(fine)
+        off = rng.choice([0, 1, -1, 2, n])
+        const = rng.choice([0.5, 1.0, 2.0, 20.0])
+        hist = random_history(rng, dt, n) if c % 4 == 3 else None
+        sd = str(dtype).replace("torch.", "")
+        stats["by_dtype"][sd] = stats["by_dtype"].get(sd, 0) + 1
+        desc = {"storage_dtype": sd, "n": n, "ptr": ptr, "dt": dt, "tol": tol, "rows": rows, "offset": off, "const": const}
+        if hist is not None:
+            desc["history"] = hist
+        eps = torch.finfo(dtype).eps
+
+        def report(rel, what, extra):
+            nonlocal found
+            found += 1
+            if found <= 3:
+                ex.findings.append(Finding(kind="spec", key=f"C02:relation:{rel}:{extra.get('kernel', '-')}", what=what,
+                                           case={"relation": rel, **desc, **extra}))
+
+        def attempt(fn):
+            try:
+                return fn(), None
+            except Exception as e:  # noqa: BLE001 — an exception where the twin has a value is a finding, not a harness error
+                return None, type(e).__name__
+
+        def pick():
+            return rng.choice(fine) if fine and rng.random() < 0.7 else rng.choice(coarse)
+
+        def same(vi, vf, iname):
+            if vi.shape != vf.shape:
+                return False
+            if iname in SELECTING_INTERP:
+                return close_t(vi.to(T64), vf, 0.0)
+            return bool(torch.all((vi.to(T64) - vf).abs() <= 4 * eps * top))
+
+        _of, rf = make_record(n, ptr, rows, dt, hist)
+        _oi, ri = make_record_dtype(n, ptr, rows, dt, dtype, hist)
+        for q in range(6):
+            iname = rng.choice(SELECTING_INTERP + SELECTING_INTERP + list(INTERP))
+            kw = _kw(iname, const)
+            D = rng.choice([None, 0, 0, 2, 3])           # None = scalar time
+            if D is None:
+                ts = [pick()]
+                time_f = time_i = ts[0]
+                tdesc = "scalar"
+            else:
+                ts = [pick() for _ in range(P * max(D, 1))]
+                shape = (P,) if D == 0 else (P, D)
+                time_f = torch.tensor(ts, dtype=T64).reshape(shape)
+                tdt = T64
+                if rng.random() < 0.5 and torch.equal(time_f.to(torch.float32).to(T64), time_f):
+                    tdt = torch.float32
+                    stats["float32_time_tensors"] += 1
+                time_i = time_f.to(tdt)
+                tdesc = f"{str(tdt).replace('torch.', '')} tensor of shape {list(shape)}"
+            vf, ef = attempt(lambda: rf.select(time_f, INTERP[iname], tolerance=tol, offset=off, interp_kwargs=kw))
+            vi, ei = attempt(lambda: ri.select(time_i, INTERP[iname], tolerance=tol, offset=off, interp_kwargs=kw))
+            ex.evaluations += 1
+            stats["select"] += 1
+            if ef != ei or (ef is None and not same(vi, vf, iname)):
+                report("float_storage_select",
+                       f"select(times {ts} as {tdesc}, {iname}, tolerance={tol}, offset={off}) on {sd} storage (dt={dt}, N={n}) gives "
+                       f"{ei or vi.reshape(-1).tolist()} but {ef or vf.reshape(-1).tolist()} on the float64 twin holding the same numbers",
+                       {"kernel": iname, "times": ts, "time": tdesc, "D": D,
+                        "expected": ef or vf.reshape(-1).tolist(), "observed": ei or vi.reshape(-1).tolist()})
+        ename = rng.choice(SELECTING_EXTRAP)
+        obs = [float(rng.randint(-40, 40)) for _ in range(P)]
+        for tens in (False, True):
+            ts = [pick() for _ in range(P if tens else 1)]
+            ip = rng.random() < 0.5
+            _of, rf = make_record(n, ptr, rows, dt, hist)
+            _oi, ri = make_record_dtype(n, ptr, rows, dt, dtype, hist)
+            time = torch.tensor(ts, dtype=T64) if tens else ts[0]
+            _, ef = attempt(lambda: rf.insert(torch.tensor(obs, dtype=T64), time, EXTRAP[ename], tolerance=tol, offset=off, inplace=ip))
+            _, ei = attempt(lambda: ri.insert(torch.tensor(obs, dtype=dtype), time, EXTRAP[ename], tolerance=tol, offset=off, inplace=ip))
+            ex.evaluations += 1
+            stats["insert"] += 1
+            if ef != ei or not close_t(ri.value.to(T64), rf.value, 0.0) or ri.pointer != rf.pointer:
+                report("float_storage_insert",
+                       f"insert({obs}, times {ts} as {'float64 tensor' if tens else 'scalar'}, {ename}, tolerance={tol}, offset={off}, inplace={ip}) "
+                       f"on {sd} storage (dt={dt}, N={n}): {ei or ri.value.tolist()} but {ef or rf.value.tolist()} on the float64 twin",
+                       {"kernel": ename, "times": ts, "tensor_time": tens, "inplace": ip, "obs": obs,
+                        "expected": ef or rf.value.tolist(), "observed": ei or ri.value.tolist()})
+        ex.nontriv(("fstore", c, sd, n, ptr, dt))
+    ex.extra["float_storage_twins"] = stats
+
+
 def nondyadic_probe(ctx, ex):
     """information only (partial (float)): (i) nominal grid points reached by ACCUMULATING dt (t += dt) with
     tolerance 0 for non-dyadic dt — how many does the real code treat as off-grid (interpolation invoked)?
@@ -1159,6 +1294,7 @@ def explore(ctx) -> Exploration:
     per_stream = run_cases(ctx, cases, ex)
     relational(ctx, ex, 400 if not thorough else 8000)
     dtype_twins(ctx, ex, 150 if not thorough else 2500)
+    float_storage_twins(ctx, ex, 240 if not thorough else 3000)
     ex.extra["streams"] = per_stream
     ex.extra["non_dyadic"] = {"label": "partial (float)", **per_stream.get("non_dyadic", {}),
                               "judged_with": "tolerance 1e-6 (the property's), values to 1e-9 relative",
@@ -1174,7 +1310,9 @@ def explore(ctx) -> Exploration:
                "three with a chosen one last, random order, random intermediate values, pushes in between — judged by the same specification "
                "of the resulting dt and N); plus relational checks on the real "
                "code (scalar vs tensor select/insert, insert-select round trip, acceptance against the closed-form range, half of them on re-assigned "
-               "records; int64/int32/bool storage against a float64 twin). A case is non-trivial when some select returned values "
+               "records; int64/int32/bool storage against a float64 twin; float16/bfloat16/float32 storage against a float64 twin "
+               "with scalar times and per-element float64/float32 time tensors that miss the tolerance band of a grid point by 2^-7..2^-16 "
+               "on records of up to 33 samples). A case is non-trivial when some select returned values "
                "or some insert succeeded on the real object; distinct = distinct protocol text" % (5 if not thorough else 8))
     ex.samples = [sweep[5]["ops"][:6], ins[3]["ops"], flt[0]["ops"][:5], nd[0]["ops"][:4],
                   {"history": rec[0]["history"], "ops": rec[0]["ops"][:5]}]
